@@ -42,7 +42,10 @@ func (d Exec) Apply(opt *Option, profileRaw string) (string, error) {
 	}
 
 	rules := aa.Rules{}
-	for name := range opt.ArgMap {
+	for i, name := range opt.ArgList { // In the order given, not in map order: the sort below is not a total order
+		if _, present := opt.ArgMap[name]; !present || slices.Index(opt.ArgList, name) != i {
+			continue
+		}
 		profiletoTransition := prebuild.RootApparmord.Join(name).MustReadFileAsString()
 		dstProfile := aa.DefaultTunables()
 		if _, err := dstProfile.Parse(profiletoTransition); err != nil {
